@@ -122,6 +122,56 @@ Example ex_idle :
     = Ret (RBool true).
 Proof. vm_compute. repeat split; reflexivity. Qed.
 
+(* time in microseconds, as the harness feeds it: lifetime 2 h, idle 45 min *)
+Definition us_min := 60000000.
+Definition us_hour := 3600000000.
+Definition us_day := 86400000000.
+Definition cfg_days := mkConfig 5 3 true (Some (2 * us_hour)) (Some (45 * us_min)).
+
+(* away for a whole day and five minutes: both limits are long exceeded although the remainder modulo 24 h
+   (five minutes) is below either of them; check_timeouts reports the lifetime limit *)
+Example ex_away_for_days :
+  let s := execf cfg_days (init cfg_days) [Start; Tick 1; Advance (us_day + 5 * us_min)] in
+  ph s = Active /\ now s - 0 = us_day + 5 * us_min /\
+  (now s - 0) mod us_day < 45 * us_min /\
+  stepf cfg_days s CheckTimeouts =
+    (mkState Senescent 4 1 0 0 (Some Timeout) (Some 0) (Some 0) (us_day + 5 * us_min),
+     Ret (RBool false), [(Active, Senescent)]).
+Proof. vm_compute. repeat split; reflexivity. Qed.
+
+(* c09_lifetime_expiry_is_permanent is not vacuous: a started state past its lifetime, then a reset-free history
+   with forward clock steps of three days, heartbeats, ticks and a renewal that ends ACTIVE - and is sent back to
+   SENESCENT by the next check_timeouts *)
+Example ex_lifetime_expiry_permanent :
+  let s := execf cfg_days (init cfg_days) [Start; Tick 1; Advance (2 * us_hour)] in
+  let ops := [CheckTimeouts; Advance (3 * us_day); Renew None true; Heartbeat; Tick 1; Advance 1] in
+  ph s <> Nascent /\ started_at s = Some 0 /\ 2 * us_hour <= now s - 0 /\
+  ~ In Reset ops /\ Forall forward_op ops /\
+  ph (execf cfg_days s ops) = Active /\
+  ph (step_state depleted_f64 rate_hit_f64 current cfg_days (execf cfg_days s ops) CheckTimeouts) = Senescent.
+Proof.
+  vm_compute. repeat split; try reflexivity; try discriminate.
+  - intros H; repeat (destruct H as [H|H]; [discriminate H|]); exact H.
+  - repeat constructor; discriminate.
+Qed.
+
+(* c09_idle_expiry_persists_while_quiet is not vacuous (no lifetime limit here): idle for 45 minutes, then
+   a check (SENESCENT), days pass, a renewal makes it ACTIVE again without any activity: the next check_timeouts
+   sends it back; whereas one heartbeat in between (not quiet) keeps it ACTIVE *)
+Example ex_idle_expiry_persists :
+  let cfg := mkConfig 5 3 true None (Some (45 * us_min)) in
+  let s := execf cfg (init cfg) [Start; Tick 1; Advance (45 * us_min)] in
+  let ops := [CheckTimeouts; Advance (2 * us_day + 1); Renew None true; Start] in
+  ph s <> Nascent /\ last_activity s = Some 0 /\ 45 * us_min <= now s - 0 /\
+  Forall quiet_op ops /\
+  ph (execf cfg s ops) = Active /\
+  ph (step_state depleted_f64 rate_hit_f64 current cfg (execf cfg s ops) CheckTimeouts) = Senescent /\
+  ph (step_state depleted_f64 rate_hit_f64 current cfg (execf cfg s (ops ++ [Heartbeat])) CheckTimeouts) = Active.
+Proof.
+  vm_compute. repeat split; try reflexivity; try discriminate.
+  repeat constructor; discriminate.
+Qed.
+
 (* the only raise in the class is outside the valid domain (negative cost
    with max_operations = 0): the outcome type makes it visible *)
 Example ex_raise_outside_domain :
